@@ -528,4 +528,38 @@ PROPS["C19"] = {
     },
 }
 
+PROPS["C18"] = {
+    "lean": ["TinkVerif.Props.C18", "TinkVerif.Props.C18Class", "TinkVerif.Props.C18Facts"],
+    "theorems": T("TinkVerif.Conc", "run_shared interleave_eq_sequential schedule_independent steps_commute scratchMac_not_readOnly "
+                  "scratchMac_schedule_matters") + T("TinkVerif.Gen.MutFacts", "facts_classified scan_coverage allowances_used"),
+    "harness": [{"name": "c18", "timeout": 3000, "race": True}],
+    "reports": ["Reports/C18.lean"],
+    "rule": "race-detector build: for every primitive class and key type in the pool, G goroutines × M calls on ONE shared primitive "
+            "(Encrypt/Decrypt, EncryptDeterministically, ComputeMAC/VerifyMAC, ComputePRF, Sign/Verify, hybrid Encrypt/Decrypt, "
+            "NewEncryptingWriter/NewDecryptingReader full streams, JWT sign/verify, DeriveKeyset) with every result compared to the "
+            "sequential oracle computed beforehand; concurrent handle reads (Public, KeysetInfo, Primitives, Len/Entry, String), "
+            "concurrent primitive construction from one handle, concurrent registry / protoserialization lookups and key parsing; "
+            "any race report, panic or result mismatch is a violation; non-trivial = every concurrent call whose result was compared, "
+            "distinct by (primitive, operation, input) hash",
+    "trusted_base": [KERNEL, TIE, "the regenerated mutation facts come from a syntactic extractor (stores through receivers and their "
+                     "local aliases, mutator calls on receiver-held stateful std types, stores to package variables); mutation through "
+                     "other aliases, closures or callee-internal state is not seen by it — the race-detector harness covers those at run time",
+                     "Go memory model, goroutine scheduler, race detector (happens-before based, sees only executed interleavings)"],
+    "assumptions": ["the interleaving theorem is about the model: it shows why immutability after construction gives the property for "
+                    "every schedule; that the code is immutable after construction is established by the regenerated facts, not proved",
+                    "data-race freedom of the compiled program is not proved"],
+    "manifest": {
+        "text": "Partial. Theorem (interleaving model, any number of threads, any schedule, any programs): if no step writes the shared "
+                "object then after every schedule each thread's memory is exactly what it computes alone, the shared object is unchanged, "
+                "results do not depend on the schedule and steps of different threads commute (race freedom of the model); a primitive with "
+                "a shared scratch cell violates this (kernel-checked counterexample schedule). REGENERATED on every run: every store "
+                "through a method receiver, every mutator call on a receiver-held hash/cipher/buffer/big.Int, every store to a package "
+                "variable outside init — `facts_classified`: all on allow-listed per-stream / per-call / builder objects or mutex-guarded "
+                "registries. Tie and witness search: race-detector stress of every shared primitive against the sequential oracle.",
+        "design_ref": "DESIGN.md §5.18",
+        "note": "Trusted: Lean kernel; syntactic extractor; Go race detector. Real schedules and the Go memory model are outside the model.",
+        "technique": "Lean 4 proof (interleaving = sequential for read-only steps; regenerated mutation facts decided in the kernel) + race-detector stress harness vs sequential oracle",
+    },
+}
+
 NOT_BUILT = {}
